@@ -270,6 +270,10 @@ def operand_writes(ctx):
                         if len(ch) == 1 and any(nm == ch[0] and ln < s.lineno for nm, ln in rebound):
                             continue
                         bad.append("in-place call %s.%s() line %d" % (".".join(ch), s.func.attr, s.lineno))
+            if not name.startswith("__i") and name not in ("__eq__", "__ne__"):
+                for r in ast.walk(fn):
+                    if isinstance(r, ast.Return) and isinstance(r.value, ast.Name) and r.value.id in operands | alias:
+                        bad.append("returns the operand object `%s` itself line %d (result and operand are one object)" % (r.value.id, r.lineno))
             inplace_alias = name.startswith("__i")
             ctx.ob("R18.2", "%s.%s%s" % (cname, op, " (= %s)" % name if name != op else ""), not bad, "; ".join(bad) or "writes only locals", fn.lineno,
                    "a non-in-place operator modifies one of its operands")
